@@ -57,7 +57,7 @@ func init() { Register(c01{}) }
 func (c01) ID() string       { return "C01" }
 func (c01) New() interface{} { return &C01Case{} }
 func (c01) Rule() string {
-	return "each run: a start container (alignment or sequence set; empty, one row, one column, mixed case and colliding names included; one of the three duplicate-name policies) and a history of 1-12 operations out of 49 kinds (add with right / wrong length and fresh / existing name, append, concat, rename, rename-regexp, clean-names, trim-names, trim-names-auto, append-identifier, sort, shuffle, filter-length, deduplicate, remove-gap-seqs, remove-character-seqs, translate in one or three phases or along a reference row, clone, sample, clear, sub-align, select-sites, transpose, unalign, replace, replace-match-chars, mask, case changes, set-policy, remove-gap-sites, remove-character-sites, remove-majority-sites, compress, trim-sequences; and, held to the invariants and to what they conserve, swap, recombine, shuffle-sites, add-gaps, mutate, simulate-rogue, mask-unique, mask-occurences, rand-sub-align) with arguments resolved against the current content; after every operation all access paths are compared with each other and with the list model (operations whose documentation does not fix the result are only held to the invariants, after which the model is re-read from the container). Distinct = distinct sequence of operation kinds + start shape; non-trivial = at least 2 operations that change the container."
+	return "each run: a start container (alignment or sequence set; empty, one row, one column, mixed case and colliding names included; one of the three duplicate-name policies) and a history of 1-12 operations out of 50 kinds (add with right / wrong length and fresh / existing name, append, concat, rename, rename-regexp, clean-names, trim-names, trim-names-auto, append-identifier, sort, shuffle, filter-length, deduplicate, remove-gap-seqs, remove-character-seqs, translate in one or three phases or along a reference row, clone, sample, clear, sub-align, select-sites, transpose, unalign, replace, replace-match-chars, mask, case changes, set-policy, remove-gap-sites, remove-character-sites, remove-majority-sites, compress, trim-sequences; and, held to the invariants and to what they conserve, swap, recombine, shuffle-sites, add-gaps, mutate, simulate-rogue, mask-unique, mask-occurences, rand-sub-align) with arguments resolved against the current content; after every operation all access paths are compared with each other and with the list model (operations whose documentation does not fix the result are only held to the invariants, after which the model is re-read from the container). Distinct = distinct sequence of operation kinds + start shape; non-trivial = at least 2 operations that change the container."
 }
 
 var c01Names = []string{"a", "b", "c", "A", "seq1", "seq2", "a_0001", "s:1", " x", "t.1|u", "Seq_10", "zz"}
@@ -74,7 +74,7 @@ var c01Kinds = []string{"add", "add", "add", "append", "concat", "rename", "rena
 	"sort", "sort", "shuffle", "filter-length", "deduplicate", "remove-gap-seqs", "translate", "clone", "sample", "clear", "sub-align", "unalign", "replace", "to-upper", "to-lower", "set-policy",
 	"remove-gap-sites", "trim-sequences", "remove-majority-sites", "remove-character-sites", "compress",
 	"select-sites", "transpose", "mask", "mask", "remove-character-seqs", "replace-match-chars",
-	"swap", "recombine", "shuffle-sites", "add-gaps", "mutate", "simulate-rogue", "mask-unique", "mask-occurences", "rand-sub-align", "translate-by-reference"}
+	"swap", "recombine", "shuffle-sites", "add-gaps", "mutate", "simulate-rogue", "mask-unique", "mask-occurences", "rand-sub-align", "translate-by-reference", "rarefy"}
 
 func (c01) Gen(rs uint64, tier string, race bool) interface{} {
 	r := NewRand(rs)
@@ -1241,6 +1241,43 @@ func (c01) Run(ctx *Ctx, ci interface{}) (o Outcome) {
 					}
 				}
 				m.rows[i].Seq = string(b)
+			}
+		case "rarefy":
+			// a sample of the rows, drawn with the given counts as weights: the rows that are kept stay what they were and
+			// where they were relative to each other (the list the sample is taken from is a list, not a set)
+			if !isAl || n < 2 || m.dupNames() {
+				applied = false
+				break
+			}
+			{
+				counts := map[string]int{}
+				tot := 0
+				for i, r := range m.rows {
+					counts[r.Name] = 1 + (i+op.J)%3
+					tot += counts[r.Name]
+				}
+				nb := 1 + op.N%(tot-1)
+				rand.Seed(op.Seed)
+				smp, err := al.Rarefy(nb, counts)
+				if err != nil {
+					o.Add("operation_errors_outside_the_statement", 1)
+					break
+				}
+				rows, _ := observe(smp)
+				k := 0
+				for _, r := range rows {
+					for k < len(m.rows) && m.rows[k] != r {
+						k++
+					}
+					if k == len(m.rows) {
+						fail("differs-from-model", "Rarefy(%d): the sample is not a sub-list of the rows in their order: %v is out of place or not a row\nsample:\n%s", nb, r, fmtRows(rows))
+						return
+					}
+					k++
+				}
+				cont = smp
+				cont.IgnoreIdentical(m.policy)
+				modelled = false
 			}
 		case "translate-by-reference":
 			// codon by codon along a reference row, gaps of the reference skipped: the documentation fixes the result by
